@@ -479,7 +479,10 @@ JunkMore(v) ==
         { Junk("te/mapped6", "te", <<>>, 0, 0) @@ [mapped6 |-> TRUE] }
         \cup (IF v = "icmp4" THEN { Junk("echo/mapped6", "echo", <<>>, 0, 0) @@ [mapped6 |-> TRUE, from |-> "TARGET"] } ELSE {}))
     \cup (IF v = "sack" THEN { Junk("sack/empty_block/" \o ToString(e), "sack", <<>>, 0, 0) @@ [from |-> "TARGET", mods |-> [sack_width |-> 0], mods_d |-> [sack_left |-> e]]
-                                   : e \in {1000000, -70000} } ELSE {})
+                                   : e \in {1000000, -70000} }
+                          \* ... and one whose SACK option data is not a multiple of 8 bytes (12 / 4 bytes), edges far from anything sent
+                          \cup { Junk("sack/odd_option/" \o ToString(n), "sack", <<>>, 0, 0) @@ [from |-> "TARGET", extra |-> <<5>>, mods |-> [sack_trim |-> n], mods_d |-> [sack_left |-> 3000000]]
+                                   : n \in {4, 12} } ELSE {})
 
 C09Clean(v, s, b) == Common(v, s, b, 1, 4) @@ [id |-> "C09/" \o v \o "/" \o b.name \o "/clean", label |-> v \o "/clean", path |-> Background(v, 1, 4, 4, {3})]
 \* batches of junk (all of it must be ignored, so one run absorbs many); the check re-runs a violating batch one packet at a time
@@ -492,6 +495,7 @@ C09Noisy(v, s, b, js, k, at) ==
                                        mods_d |-> IF "mods_d" \in DOMAIN js[i] THEN js[i].mods_d ELSE NoMods,
                                        mods |-> IF "mods" \in DOMAIN js[i] THEN js[i].mods ELSE NoMods,
                                        mapped6 |-> IF "mapped6" \in DOMAIN js[i] THEN js[i].mapped6 ELSE FALSE,
+                                       extra |-> IF "extra" \in DOMAIN js[i] THEN js[i].extra ELSE <<>>,
                                        patch |-> js[i].patch, trunc |-> js[i].trunc, append |-> js[i].append, tag |-> js[i].label]]]
 Chunks(sq, n) == [k \in 1..((Len(sq) + n - 1) \div n) |-> SubSeq(sq, (k - 1) * n + 1, IF k * n > Len(sq) THEN Len(sq) ELSE k * n)]
 \* a steady stream of packets that must be skipped (4 per millisecond: truncated junk / a time-exceeded about somebody else's flow /
